@@ -29,8 +29,8 @@ impl Check for C02 {
     }
     fn runs(&self, tier: Tier) -> u64 {
         match tier {
-            Tier::Quick => 150_000,
-            Tier::Thorough => 10_000_000,
+            Tier::Quick => 2_000_000,
+            Tier::Thorough => 60_000_000,
         }
     }
 
